@@ -13,7 +13,7 @@ DAYS = [31, 28, 31, 30, 31, 30, 31, 31, 30, 31, 30, 31]
 
 INVS = {
     "C06": ["ConservesK"],
-    "C07": ["PeaksOnlyInRetentionMonths", "NoPulseWithoutLoad", "PulsePresent", "DurationsInRangeK", "CentredOnNoon"],
+    "C07": ["PeaksOnlyInRetentionMonths", "NoPulseWithoutLoad", "PulsePresent", "DurationsInRangeK", "PulseLastsItsDuration", "CentredOnNoon"],
     "C08": ["MonthEndsPresent", "StrictlyIncreasingUnlessOverlapK", "SameDayAbutK", "RepeatsYearly"],
 }
 
@@ -165,7 +165,7 @@ def direct_verdicts(months, zero_hour, line, M, fixed, totals):
     leap = bool(line.get("leap"))
     """Property predicates evaluated on the CODE's own arrays (no reference to the expected segments)."""
     v = {"Conserves": True, "PeaksOnlyInRetentionMonths": True, "NoPulseWithoutLoad": True, "PulsePresent": True,
-         "DurationsInRange": True, "CentredOnNoon": True, "MonthEndsPresent": True, "StartsAtZero": zero_hour == 0.0,
+         "DurationsInRange": True, "PulseLastsItsDuration": True, "CentredOnNoon": True, "MonthEndsPresent": True, "StartsAtZero": zero_hour == 0.0,
          "StrictlyIncreasingUnlessOverlap": True, "EndsAtHorizon": True}
     for m in range(1, M + 1):
         segs = months[m - 1]
@@ -220,6 +220,9 @@ def direct_verdicts(months, zero_hour, line, M, fixed, totals):
             noon = day * 24 * HU + 12 * HU
             if clamped:
                 continue
+            want_d = eff_dur(inp["pkc"], inp["dc"], inp["wc"], fixed) if kind == "pkc" else eff_dur(inp["pkh"], inp["dh"], inp["wh"], fixed)
+            if abs(d - want_d) > 4:
+                v["PulseLastsItsDuration"] = False
             if both_same:
                 edge = b if kind == "pkc" else a
                 if not (noon <= edge <= noon + HU):
@@ -674,6 +677,7 @@ def _real_profile_case(seed):
                 moy = ((m - 1) % 12) + 1
                 e_h = month_start_h(m + 1)
                 energy, prev, vals, closed = 0.0, float(month_start_h(m)), [], False
+                ends = []
                 ok_order = True
                 while pos < len(hours):
                     t_, q = hours[pos], loads[pos]
@@ -682,6 +686,7 @@ def _real_profile_case(seed):
                     ok_order = ok_order and t_ > prev
                     prev = t_
                     vals.append(q)
+                    ends.append(t_)
                     if abs(t_ - e_h) < 1e-6 and len(vals) >= 1 and (pos == len(hours) or hours[pos] > e_h - 1e-6):
                         closed = True
                         break
@@ -696,10 +701,15 @@ def _real_profile_case(seed):
                 rate = max(abs(v) for v in vals)
                 if abs(energy - want) > 1e-8 * max(abs(totc) + abs(toth), 1.0) + 2e-6 * rate and not first_clamped:
                     out["C06"].append(f"month {m} of {M}: the hybrid sequence integrates to {energy!r} kWh, the hourly profile to {want!r} kWh ({kind} profile)")
-                for pk, sign, name in ((pkc, 1.0, "rejection"), (pkh, -1.0, "extraction")):
+                for pk, sign, name, durs in ((pkc, 1.0, "rejection", hl.monthly_peak_cl_duration), (pkh, -1.0, "extraction", hl.monthly_peak_hl_duration)):
                     has = any(v == sign * pk for v in vals) if pk > 0 else False
                     if ipf and pk > 0 and not has:
                         out["C07"].append(f"month {m} of {M} has no pulse of its {name} peak {pk!r} kW (loads {vals})")
+                    if ipf and pk > 0 and has and not first_clamped and vals.count(sign * pk) == 1:
+                        k = vals.index(sign * pk)
+                        length = ends[k] - (ends[k - 1] if k > 0 else float(month_start_h(m)))
+                        if abs(length - float(durs[moy])) > 1e-6:
+                            out["C07"].append(f"month {m} of {M}: the {name} pulse lasts {length!r} h, the month's computed peak duration is {float(durs[moy])!r} h")
                 if not ipf and len(vals) != 1:
                     out["C07"].append(f"month {m} of {M} lies between the peak-retention years and carries {len(vals)} segments")
     return out
